@@ -588,6 +588,15 @@ def path_returns(fnode, max_paths=64):
                 env = dict(env)
                 env[st.targets[0].id] = inline(st.value, env, depth=1)
                 continue
+            if isinstance(st, ast.Assign) and len(st.targets) == 1 and isinstance(st.targets[0], ast.Tuple) and isinstance(st.value, ast.Tuple) \
+                    and len(st.targets[0].elts) == len(st.value.elts) and all(isinstance(t, ast.Name) for t in st.targets[0].elts) \
+                    and not any(isinstance(v, ast.Starred) for v in st.value.elts):
+                # a, b = x, y: all values are evaluated (with the environment before the statement) before any target is bound
+                vals = [inline(v, env, depth=1) for v in st.value.elts]
+                env = dict(env)
+                for t, v in zip(st.targets[0].elts, vals):
+                    env[t.id] = v
+                continue
             if isinstance(st, ast.AugAssign) and isinstance(st.target, ast.Name):
                 env = dict(env)
                 cur = env.get(st.target.id, ast.Name(id=st.target.id, ctx=ast.Load()))
